@@ -42,6 +42,9 @@ var gbyLeveldb = gbyTable{
 }
 
 func runC05(p *Prog, r *Report) {
+	if want("C05.21") {
+		ruleSnapshotReadsFrozenSeq(p, r, "C05.21")
+	}
 	if want("C05.20") {
 		// an in-flight snapshot read keeps the snapshot registered
 		ruleSnapshotReadsUnderLock(p, r, "C05.20")
